@@ -104,6 +104,10 @@ class Gen:
                 calls.append({"args": [self.value(a, "param") for a in t["ps"]],
                               "ret": None if t["r"]["k"] == "unit" else self.value(t["r"], "param")})
             return {"calls": calls}
+        if k == "strs":
+            # a list of 0..3 strings (code units; the validated encoding gets valid UTF-8)
+            pool = {"u8": [[], [0x61], [0xff, 0x00, 0x62]], "u16": [[], [0x61], [0xd800, 0x41, 0xffff]], "utf8": [[], [0x61], list("hé€".encode("utf8"))]}[t["enc"]]
+            return {"list": [list(r.choice(pool)) for _ in range(r.choice([0, 1, 2, 3]))]}
         if k == "trait":
             # the script of a trait object: which method the Rust body invokes (in this order), with which arguments, and the answers
             calls = []
@@ -148,6 +152,9 @@ class Gen:
             return "()"
         if k in ("cb", "trait"):
             return "cb"
+        if k == "strs":
+            e = "u16" if t["enc"] == "u16" else "u8"
+            return "L[%s]" % ";".join("[%d|%s]" % (len(x), ",".join("%s:%x" % (e, y) for y in x)) for x in v["list"])
         raise ValueError(k)
 
     # ---------------------------------------------------------------------------------- Rust side
@@ -193,6 +200,11 @@ class Gen:
             return '"()".to_string()'
         if k in ("cb", "trait"):
             return '"cb".to_string()'
+        if k == "strs":
+            el = "u16" if t["enc"] == "u16" else "u8"
+            inner = "x.as_bytes()" if t["enc"] == "utf8" else "&x[..]"
+            return ('format!("L[{}]", (%s).iter().map(|x| { let s = %s; format!("[{}|{}]", s.len(), s.iter().map(|y| format!("%s:{:x}", y)).collect::<Vec<_>>().join(",")) })'
+                    '.collect::<Vec<_>>().join(";"))' % (e, inner, el))
         raise ValueError(k)
 
     def rust_lit(self, p, bits):
@@ -361,6 +373,19 @@ class Gen:
                 else:
                     out.append("%s[%d] = (%s)0x%xULL;" % (nm, j, cty, x))
             out.append("%s.data = %s; %s.len = %d;" % (lv, nm, lv, len(items)))
+        elif k == "strs":
+            wide = t["enc"] == "u16"
+            cty, vty = ("char16_t", "DiplomatString16View") if wide else ("char", "DiplomatStringView")
+            base = "s%d_" % len(tmp)
+            tmp.append(base)
+            n = len(v["list"])
+            out.append("static %s %sv[%d];" % (vty, base, max(n, 1)))
+            for j, x in enumerate(v["list"]):
+                out.append("static %s %s%d[%d];" % (cty, base, j, max(len(x), 1)))
+                for q, y in enumerate(x):
+                    out.append("%s%d[%d] = (%s)0x%x;" % (base, j, q, cty, y))
+                out.append("%sv[%d].data = %s%d; %sv[%d].len = %d;" % (base, j, base, j, base, j, len(x)))
+            out.append("%s.data = %sv; %s.len = %d;" % (lv, base, lv, n))
         elif k == "cb":
             out.append("%s.data = NULL; %s.run_callback = %s; %s.destructor = %s;" % (lv, lv, v["c_run"], lv, v["c_drop"]))
         elif k == "trait":
@@ -424,6 +449,15 @@ class Gen:
             out.append('L("()");')
         elif k in ("cb", "trait"):
             out.append('L("cb");')
+        elif k == "strs":
+            el = "u16" if t["enc"] == "u16" else "u8"
+            cast = "(uint16_t)" if el == "u16" else "(uint8_t)"
+            out.append('L("L[");')
+            out.append("for (size_t j_ = 0; j_ < (%s).len; j_++) { if (j_) L(\";\"); L(\"[%%llu|\", (unsigned long long)(%s).data[j_].len);" % (e, e))
+            out.append("for (size_t i_ = 0; i_ < (%s).data[j_].len; i_++) { if (i_) L(\",\");" % e)
+            self.c_fmt({"k": "prim", "p": el}, "%s(%s).data[j_].data[i_]" % (cast, e), out)
+            out.append("} L(\"]\"); }")
+            out.append('L("]");')
         else:
             raise ValueError("c_fmt " + k)
 
